@@ -223,6 +223,47 @@ def run(ctx):
 
     drive.for_each_case(ctx, 'dup-inherited', max(20, ctx.budget // 10), body_dup_inherited, gen=lambda c, r: Ty('int'))
 
+    # variants that are more than a bare class: a subscripted generic dataclass (Box[int]) and a dataclass under a condition.
+    # The tag picks the variant; the body is then judged by THAT member as written (type argument, condition), in every layout.
+    def body_rich_variants(i, rng, ty, T):
+        import types as _types
+        from pane.annotations import Tagged, Condition
+        TV = t.TypeVar('TV')
+        Box = _types.new_class(f"RBox{i}", (env.PaneBase, t.Generic[TV]), {}, lambda ns: ns.update({
+            '__annotations__': {'x': TV, 'kind': t.Literal['box']}, 'kind': 'box', '__module__': __name__}))
+        Circle = type(f"RCircle{i}", (env.PaneBase,), {'__annotations__': {'r': float, 'kind': t.Literal['circle']}, 'kind': 'circle', '__module__': __name__})
+        Other = type(f"ROther{i}", (env.PaneBase,), {'__annotations__': {'kind': t.Literal['other'], 'y': int}, 'kind': 'other', 'y': 0, '__module__': __name__})
+        arg = rng.choice((int, str, t.List[int]))
+        good_x, bad_x = {int: (5, 'five'), str: ('s', 5), t.List[int]: ([1], ['a'])}[arg]
+        positive = Condition(lambda c: c.r > 0, 'positive radius')
+        members = [Box[arg], t.Annotated[Circle, positive], Other]
+        rng.shuffle(members)
+        ext = rng.choice((False, True, ('t', 'c')))
+        U = t.Annotated[t.Union[tuple(members)], Tagged('kind', ext)]
+
+        def lay(tag, body):
+            if ext is False: return {'kind': tag, **body}
+            if ext is True: return {tag: body}
+            return {ext[0]: tag, ext[1]: body}
+        rows = [('box', {'x': good_x}, True), ('box', {'x': bad_x}, False), ('circle', {'r': 2.0}, True), ('circle', {'r': -1.0}, False),
+                ('circle', {'r': 0}, False), ('other', {'y': 3}, True), ('other', {'y': 'x'}, False), ('box', {}, False)]
+        for tag, body, ok in rows:
+            out = observe(env.from_data, lay(tag, body), U)
+            ctx.count('rich_variant_rows')
+            ctx.case(('rich-variants', str(ext), tag, ok, out.kind), nontrivial=True)
+            wit = {'members': short(members, 300), 'layout': str(ext), 'data': short(lay(tag, body)), 'expected_accept': ok, 'outcome': out.brief()}
+            if out.kind == 'escape' or (out.kind == 'value') != ok:
+                ctx.violation('variant-chosen-by-tag-alone', 'rich', i, wit, mech='variant-member-not-enforced-as-written' if out.kind == 'value' else 'variant-member-refused')
+                return
+            if ok:
+                back = observe(env.into_data, out.val, U)
+                re_ = observe(env.from_data, back.val, U) if back.kind == 'value' else back
+                if re_.kind != 'value' or not (re_.val == out.val):
+                    ctx.violation('serialisation-reads-back', 'rich', i, {**wit, 'into_data': back.brief(), 'reparsed': re_.brief()}, mech='rich-variant-roundtrip')
+                    return
+
+    drive.for_each_case(ctx, 'rich', max(20, ctx.budget // 10), body_rich_variants, gen=lambda c, r: Ty('int'))
+
     # class-attribute style variants (as in the repository's tests): int / float / dict subclasses carrying `tag`
     def body_attr(i, rng, ty, T):
         V1 = type('AV1', (int,), {'tag': 3})
